@@ -1,35 +1,9 @@
 """C01 -- shell/exec output is exactly what the device wrote, for every chunking."""
-import oracles
-import scen
-from units import sesscheck
-
-ORACLES = (oracles.o_c01, oracles.o_locks)
-
-
-def gen(ctx, n):
-    return [scen.gen_shell(ctx.rng) for _ in range(n)]
-
-
-def run(ctx):
-    ctx.report.rule = ("sessions (connect, then shell/exec_out/streaming_shell/root) against the reactive simulator: outputs biased to UTF-8 edge "
-                       "cases split into WRTE payloads at every byte / randomly / with empty payloads / none at all, burst and stop-and-wait devices, "
-                       "remote ids {sequential, equal to local, near 2^32, random}, id counter presets near 0 and 2^32, foreign-stream packets injected, "
-                       "6 read fragmentations; each scenario on AdbDevice and AdbDeviceAsync. Non-trivial = an op sent bytes or failed other than by "
-                       "the connection guard; distinct by (family, per-op kind, outcome class, size class).")
-    n = int((150 if ctx.tier == "quick" else 3000) * ctx.budget)
-    sesscheck.check_scenarios(ctx, gen(ctx, n), ORACLES, "shell")
-
-
-def search(ctx, disagreements, proofs):
-    before = len(ctx.report.prop_failures)
-    sesscheck.check_scenarios(ctx, gen(ctx, int(300 * ctx.budget)), ORACLES, "shell-search")
-    fails = ctx.report.prop_failures[before:]
-    return fails[0] if fails else None
-
-
-def shrink(ctx, failure):
-    return sesscheck.shrink(ctx, failure, ORACLES)
-
-
-def replay(ctx, payload):
-    return sesscheck.replay(ctx, payload, ORACLES)
+import oracles, scen
+from units.mk import Unit, COMMON
+Unit([("shell", scen.gen_shell, 1)], (oracles.o_c01,) + COMMON,
+     "sessions (connect, then shell/exec_out/streaming_shell/root) against the reactive simulator: outputs biased to UTF-8 edge cases, split into WRTE "
+     "payloads at every byte / randomly / with empty payloads / none at all; burst and stop-and-wait devices; remote ids {sequential, equal to local, "
+     "near 2^32, random}; id-counter presets near 0 and 2^32; foreign-stream packets injected; six read-fragmentation styles; every scenario on "
+     "AdbDevice and AdbDeviceAsync. Non-trivial = some op sent bytes or failed other than by the connection guard; distinct by (family, per-op kind, "
+     "outcome class, size class).", 150, 4000).export(globals())
